@@ -99,7 +99,7 @@ def run(ctx):
         r = ctx.tlc("ECH_MC", cfg=mc_cfg(ctx, "ECH_MC_mut_" + m.replace("-", "_"), [7], [1], [32], [1], [1], [1, 3], [0, 32], 99, m), workers=1, timeout=600, count=False)
         return m, set(r.violated)
     with cf.ThreadPoolExecutor(max_workers=7) as ex:
-        fmc = ex.submit(lambda: ctx.tlc("ECH_MC", cfg=mc_cfg(ctx, "ECH_MC_run", *full, sample, "none"), workers=8 if ctx.quick else 12, timeout=1500))
+        fmc = ex.submit(lambda: ctx.tlc("ECH_MC", cfg=mc_cfg(ctx, "ECH_MC_run", *full, sample, "none"), workers=8 if ctx.quick else 14, timeout=2400))
         fmut = [ex.submit(mutant, m) for m in MUTANTS]
         mc = fmc.result()
         muts = [f.result() for f in fmut]
@@ -281,7 +281,8 @@ def run(ctx):
                       "{Handshake only, BuildHandshakeState once/twice before, build+SetClientRandom, build+SetSNI(same name)} tied to it (each shape and each usage with every ID, server behaviour and certificate)"
                       if ctx.quick else
                       "thorough: config x AEAD x max-length reduced to a Latin square chosen by VERIF_SEED (a third: every pair of values occurs), name pair tied to it, "
-                      "full product with list shape x caller usage x ID x server behaviour x certificate"),
+                      "full product with list shape x caller usage x ID x server behaviour x certificate (HelloRetryRequests without cookie); each cookie length with every "
+                      "ID x HRR group x usage x certificate x Latin variant, the list shape tied to the variant"),
            "capable_ids": capable, "by_server": by("server"), "by_list_shape": by("shape"), "by_usage": by("usage"), "by_cert": by("cert"), "events": len(events), "observed": obs,
            "model_mutants_rejected": sorted(MUTANTS), "binding_canaries": [c[0] for c in canaries],
            "rejected_scenarios": len(bad), "samples": [brief(scns[0]), brief(scns[len(scns) // 2]), brief(scns[-1])], "exhaustive": not ctx.quick}
